@@ -114,8 +114,8 @@ def extra_header(rng, odd):
     lines = [word(rng, 0 if odd else 1, 10, b"abc def:<>") .strip(b" ") or b"v" for _ in range(n)]
     if odd and n > 1 and rng.random() < 0.5:
         lines[rng.randrange(1, n)] = b""                                      # empty continuation line
-    if odd and rng.random() < 0.2:
-        lines[-1] = lines[-1] + b" "
+    if rng.random() < (0.2 if odd else 0.12):
+        lines[-1] = lines[-1] + b" "                                          # trailing blank kept verbatim by git and go-git
     if odd and rng.random() < 0.15:
         lines.append(b"")                                                     # value ending in an empty continuation
     return multiline_header(k, lines)
